@@ -505,6 +505,10 @@ func (c *ctxT) check(cfg cfgT, cl call, status string, wire []byte, lines []stri
 		return obs
 	}
 	for i := range els {
+		// round E (review A-2): "every outgoing stanza carries the stream's content namespace"
+		if ws, ok := els[i][0].(xml.StartElement); ok && isStanzaName(ws.Name) && ws.Name.Space != cfg.ns {
+			c.fail("stream-namespace", "other-stanza-namespace", lines, fmt.Sprintf("a top-level <%s> in %q went out on a stream whose content namespace is %q (completed like a stanza of the stream); wire %q", ws.Name.Local, ws.Name.Space, cfg.ns, clip(wire)))
+		}
 		// the from address of a stanza on a server-to-server stream: the caller's, else the
 		// address the session reports as its own (LocalAddr(), verified when the session was made)
 		if ws, ok := els[i][0].(xml.StartElement); ok && cfg.from != "" {
